@@ -52,7 +52,7 @@ EmptyDb == [users |-> {}, appts |-> {}, trackers |-> {}, lastKnown |-> 0]
 Init ==
     /\ st = BootF(EmptyDb, InitBlocks, H0)
     /\ g = [seen |-> {}, nodeHas |-> {}, chain |-> {InitBlocks[i] : i \in 1..IDX_N}, lastAcc |-> {},
-            granted |-> [u \in Users |-> 0]]
+            granted |-> [u \in Users |-> 0], fresh |-> {}]
     /\ chain = InitBlocks
     /\ nblocks = 0 /\ nops = 0 /\ ndisc = 0 /\ nver = 1 /\ nextId = IDX_N + 1
     /\ viol = {} /\ hist = <<>>
@@ -84,7 +84,8 @@ DoAdd(who, l, blob, orc) ==
                                                expiry |-> x.reply.expiry, ver |-> x.reply.ver, sig_ok |-> TRUE] ELSE x.reply
            E == [act |-> "Add", who |-> who, a |-> a, reply |-> rep, sends |-> x.sends, orc |-> orc]
            k == <<who, l>>
-           g2 == [g EXCEPT !.nodeHas = @ \cup {tx \in TxU : orc[tx] \in {"ok", "mem", "res"}},
+           g2 == [g EXCEPT !.fresh = @ \cup {tx \in TxU : orc[tx] \in {"ok", "rej", "res"}},
+                           !.nodeHas = @ \cup {tx \in TxU : orc[tx] \in {"ok", "mem", "res"}},
                            !.lastAcc = IF rep.code = "ok" /\ HasKey(x.st.appts, k) /\ RowOf(x.st.appts, k).ver = a.ver
                                        THEN {y \in @ : y.k # k} \cup {[k |-> k, key |-> blob.key, pay |-> blob.pay, size |-> blob.size, tsd |-> a.tsd]}
                                        ELSE @]
@@ -92,7 +93,7 @@ DoAdd(who, l, blob, orc) ==
           /\ g' = g2
           /\ viol' = viol \cup AbortTag("Add", x)
                           \cup Tags("Add", C06_Request(st, E, x.st) \cup C07_Add(st, E, x.st) \cup C07_Copies(x.st)
-                                          \cup C01_Add(st, E, x.st) \cup C08_Add(st, E, x.st)
+                                          \cup C01_Add(st, E, x.st, g) \cup C08_Add(st, E, x.st)
                                           \cup C02_Sends(st, E, x.st, g) \cup C02_Status(st, E, x.st, g2))
           /\ hist' = Append(hist, [op |-> "add", who |-> who, l |-> l, blob |-> blob, ver |-> a.ver, code |-> rep.code,
                                    orc |-> {<<tx, orc[tx]>> : tx \in {t \in TxU : orc[t] # "none"}}])
@@ -147,15 +148,15 @@ ConnectWith(blk, orcW, orcR) ==
         gPurged == [g EXCEPT !.granted = [u \in Users |-> IF HasUser(s1.users, u) THEN @[u] ELSE 0]]
         xw == WConnectF(s1, blk, orcW)
         Ew == [act |-> "WConnect", blk |-> blk, reply |-> Reply("ok"), sends |-> xw.sends, orc |-> orcW]
-        g1 == [gPurged EXCEPT !.seen = @ \cup blk.keys,
+        g1 == [gPurged EXCEPT !.fresh = @ \cup {tx \in TxU : orcW[tx] \in {"ok", "rej", "res"}}, !.seen = @ \cup blk.keys,
                               !.nodeHas = @ \cup blk.keys \cup {tx \in TxU : orcW[tx] \in {"ok", "mem", "res"}},
                               !.chain = {b \in @ : b.h < blk.h} \cup {blk}]
-        tw == Tags("WConnect", C01_WConnect(s1, Ew, xw.st) \cup C02_Sends(s1, Ew, xw.st, gPurged) \cup C02_Status(s1, Ew, xw.st, g1)
+        tw == Tags("WConnect", C01_WConnect(s1, Ew, xw.st, gPurged) \cup C02_Sends(s1, Ew, xw.st, gPurged) \cup C02_Status(s1, Ew, xw.st, g1)
                                \cup C07_Frozen(s1, xw.st) \cup C07_Copies(xw.st))
               \cup AbortTag("WConnect", xw)
         xr == RConnectF(xw.st, blk, orcR)
         Er == [act |-> "RConnect", blk |-> blk, reply |-> Reply("ok"), sends |-> xr.sends, orc |-> orcR]
-        g2 == [g1 EXCEPT !.nodeHas = @ \cup {tx \in TxU : orcR[tx] \in {"ok", "mem", "res"}}]
+        g2 == [g1 EXCEPT !.fresh = {}, !.nodeHas = @ \cup {tx \in TxU : orcR[tx] \in {"ok", "mem", "res"}}]
         tr == Tags("RConnect", C04_RConnect(xw.st, Er, xr.st, g1) \cup C02_Sends(xw.st, Er, xr.st, g1) \cup C07_Copies(xr.st))
               \cup AbortTag("RConnect", xr)
     IN /\ st' = [xr.st EXCEPT !.lastKnown = blk.id]
